@@ -75,9 +75,10 @@ def closure_body(fr, header_rx):
     return m, '    ' + fr.text[i:j]
 
 
-def wrap(fr, name, sig, spec, pre, body):
+def wrap(fr, name, sig, spec, pre, body, counts=()):
     t = (f"fn {name}{sig}\n{spec}{{\n{pre}{body}\n}}\n")
-    t = re.sub(r'\*(\w+) \+= (get_value\([^;\n]*\)|local_sum|value)(?=[;,\n])', r'\1.add_assign(\2)', t)
+    # `*x += e` on the user's value type -> x.add_assign(e); the usize counters (names in `counts`) keep their `+=`
+    t = re.sub(r'\*(\w+) \+= ([^;,\n]+?)(?=\s*[;,\n])', lambda m: m.group(0) if m.group(1) in counts else f"{m.group(1)}.add_assign({m.group(2)})", t)
     return t
 
 
@@ -92,12 +93,12 @@ def build(x):
         forall|t: &T, v1: V, v2: V| #[trigger] get_value.ensures((t,), v1) && #[trigger] get_value.ensures((t,), v2) ==> v1 == v2,
     ensures final(acc).1 == old(acc).1 + 1,
         forall|v: V| #[trigger] get_value.ensures((&%s,), v) ==> final(acc).0 == merge(old(acc).0, Some(v)),     // #obl:avg.local_adds_one_value_and_counts_it
-''' % m1.group(3), '    let (%s, %s) = acc;\n' % (m1.group(1), m1.group(2)), b1)
+''' % m1.group(3), '    let (%s, %s) = acc;\n' % (m1.group(1), m1.group(2)), b1, counts=(m1.group(2),))
                + wrap(av, 'avg_global', '<V: AddAssign>(acc: &mut (Option<V>, usize), part: (Option<V>, usize))',
                       '''    requires old(acc).1 + part.1 <= usize::MAX,
     ensures final(acc).1 == old(acc).1 + part.1,                                                      // #obl:avg.global_adds_the_partial_counts
         final(acc).0 == merge(old(acc).0, part.0),                                                        // #obl:avg.global_merges_the_partial_sums
-''', '    let (%s, %s) = acc;\n    let (%s, %s) = part;\n' % (m2.group(1), m2.group(2), m2.group(3), m2.group(4)), b2))
+''', '    let (%s, %s) = acc;\n    let (%s, %s) = part;\n' % (m2.group(1), m2.group(2), m2.group(3), m2.group(4)), b2, counts=(m2.group(2),)))
     av.note('V-BLOCK', 2, 'closure bodies of group_by_avg extracted and wrapped in functions of the closure parameters')
     pieces.append(av)
     # ---- group_by_sum
@@ -116,7 +117,7 @@ def build(x):
     pieces.append(su)
     # ---- group_by_count
     co = x.method(F, 'Stream', 'group_by_count')
-    m5 = re.search(r'move \|(\w+), _\| ([^,\n]+),', co.text)
+    m5 = re.search(r'move \|(\w+), _\w*\| ([^,\n]+),', co.text)
     m6 = re.search(r'\n\s*\|(\w+), (\w+)\| ([^,\n]+),', co.text)
     if m5 is None or m6 is None:
         raise S_ScanError('group_by_count: closures not found')
